@@ -771,8 +771,12 @@ func GenSchedPlan(seed uint64, idx int, prop string) *plan.SchedPlan {
 	if prop == "C11" {
 		return genBudgetPlan(p, r, uniq)
 	}
-	if prop == "C12" && r.Chance(0.3) {
-		return genHammer(p, r, uniq, k)
+	if prop == "C12" {
+		// (plans from FirstUseBase on are all hammer-shaped: the first-use phase of
+		// the check gives each of them a process of its own)
+		if hammer := r.Chance(0.3); hammer || idx >= FirstUseBase {
+			return genHammer(p, r, uniq, k)
+		}
 	}
 	nData := r.Range(1, 3)
 	// one history in twenty is long and touches many different data: caches with
@@ -904,6 +908,9 @@ func GenSchedPlan(seed uint64, idx int, prop string) *plan.SchedPlan {
 	}
 	return p
 }
+
+// FirstUseBase: plan indexes from here on are reserved for the first-use phase.
+const FirstUseBase = 1 << 24
 
 // genHammer is the classic shape of a concurrency test: every caller makes the
 // same few calls on one shared object (same or sibling data), so that whatever
